@@ -28,6 +28,14 @@ CHECKS = {
    technique="explicit-state exploration by re-execution over real TCP handlers: all histories of valid and invalid administrative commands up to a depth; BTreeMap reference catalogue as oracle",
    text="Every history of valid and invalid commands (duplicate names/ids, renames onto taken names, unknown targets, root deletion) in the four layers is executed; after every command the outcome class (acknowledged/refused) and the complete catalogue - including lookup by name vs by id, cascade on delete, sibling isolation, memberships of two extra clients - are compared with a sequential map model; a refused command must leave catalogue and directory tree unchanged; any panic in a server task is a violation.",
    note="Trusted base: the reference model (boring BTreeMaps; commands whose outcome the property does not fix are accepted either way); panics are counted by a process-wide hook. TCP transport only in this revision."),
+ "C07": dict(cat="model_checking", engine="E-seq/partition-log", design="§5 C07",
+   technique="explicit-state exploration by re-execution: all histories of store/delete/poll-next(auto-commit)/send/purge/group delete+recreate/restart up to a depth over five identities with colliding numeric ids; map (kind,id,partition)->offset as oracle, read back for ALL identities after every step",
+   text="Consumers 1, 2, 'cx' and groups 1, 2 (consumer 1 and group 1 share the id) act on two partitions; after every step get_consumer_offset is called for all ten (identity, partition) pairs and must equal the last value stored or auto-committed for exactly that pair; stores beyond the current offset must be refused; next-polls must return the messages right after the stored offset; offsets must survive restarts and vanish with purge, explicit delete and group deletion (and not resurrect when the group id is re-created).",
+   note=PLOG_NOTE + " Group operations name the partition explicitly (member rotation is C08)."),
+ "C08": dict(cat="model_checking", engine="E-seq/groups", design="§5 C08",
+   technique="explicit-state exploration by re-execution at two levels: the real in-memory ConsumerGroup (all add/delete/repartition/next-partition histories up to depth 5-6) and the real System with three sessions (join/leave/disconnect/add-/remove-partition/poll/send histories up to depth 4-5); invariant oracle",
+   text="After every step the assignment read from the group must be exclusive, covering and balanced within one; a partition-less poll must be served from the member's own share, each of its partitions in turn between two reassignments; with next + auto-commit every poll must hand out exactly the next offsets of its partition for the group as a whole (none twice, none skipped), whichever member polls and however membership and partition count change in between.",
+   note="Trusted base: invariant checkers. Member order depends on a randomly seeded hash map, so histories are never compared with a predicted assignment. Sessions come from System::add_client."),
  "C10": dict(cat="model_checking", engine="E-seq/catalogue", design="§5 C10",
    technique="explicit-state exploration by re-execution over real TCP connections: all histories of user/password/status/token/clock/restart operations up to a depth; after every step every candidate credential is tried and every data file is byte-searched for secrets",
    text="After every step of every history each username x password combination, every raw token ever issued and a forged token are tried on fresh connections and compared with a validity model (exists, active, current password / not deleted, owner active, not expired); a login-get_me-logout-get_me probe checks de-authentication; all files are searched for passwords and raw tokens in plain, hex and base64 form; restarts are part of the alphabet, so credentials must behave identically before and after.",
@@ -91,6 +99,8 @@ def main():
         "engines": [
             {"name": "E-seq/partition-log", "path": "/verif/harness/src/pexp.rs", "serves_properties": [p for p in CHECKS if CHECKS[p]["engine"] == "E-seq/partition-log"],
              "kind_free_text": "explicit-state tree search over operation histories; state = history, rebuilt by re-executing the real server on a fresh copy of a journalled template directory; one child OS process per job"},
+            {"name": "E-seq/groups", "path": "/verif/harness/src/props/grpp.rs", "serves_properties": ["C08"],
+             "kind_free_text": "explicit-state tree search over group membership / poll histories on the real ConsumerGroup and the real System"},
             {"name": "E-seq/catalogue", "path": "/verif/harness/src/cexp.rs", "serves_properties": [p for p in CHECKS if CHECKS[p]["engine"] == "E-seq/catalogue"],
              "kind_free_text": "explicit-state tree search over administrative command histories sent through the real TCP handlers of an in-process server; catalogue observed through the server's lookup functions"},
         ],
